@@ -56,6 +56,10 @@ def decanon(c):
         return dict((decanon(k), decanon(v)) for k, v in c[1:])
     if tag == 'by':
         return bytes.fromhex(c[1])
+    if tag == 'np':
+        import numpy as np
+        v = decanon(c[3])
+        return np.array(v, dtype=c[2]) if c[1] == 'ndarray' else np.dtype(c[2]).type(v)
     if tag == 'o' and c[1] == 'AccObj':
         o = F.AccObj()
         o.n, o.total, o.seen = decanon(c[2])
